@@ -444,6 +444,22 @@ Proof.
     subst st_j'. unfold view_of. rewrite getc_set_seed, getc_setc_same. exact Hit.
 Qed.
 
+Theorem converge_full : forall cfg ops1 c t st_i' ops2 st_j' r,
+  let st_i := run cfg init_state ops1 in
+  issues cfg st_i c t st_i' ->
+  let st_j := run cfg st_i' ops2 in
+  step cfg st_j (Sync c (ATok t)) = (st_j', RSync r) ->
+  match r with
+  | Refused => True
+  | Delta t' d =>
+      same_view (apply_delta (view_of st_i c) (multistatus st_j c d)) (view_of st_j c)
+      /\ view_of st_j' c = view_of st_j c
+  end.
+Proof.
+  intros cfg ops1 c t st_i' ops2 st_j' r st_i Hi st_j Hs. destruct r as [| t' d]; [exact I |].
+  exact (converge cfg ops1 c t st_i' ops2 st_j' t' d Hi Hs).
+Qed.
+
 (* the token itself tells the view of the collection at the moment it is handed out *)
 Theorem token_determines_view : forall cfg ops c t st',
   issues cfg (run cfg init_state ops) c t st' ->
